@@ -41,12 +41,17 @@ def ofKind : Vte.Kind → EKind
 def Element.isText (e : Element) : Bool := match e.kind with | .text => true | _ => false
 
 /-- `AnsiElementIterator::next`, unrolled over the per-byte `Performer` results:
-`tl` = `text_length`, `start`, `pos` as in the Rust struct. -/
+`tl` = `text_length`, `start`, `pos` as in the Rust struct. With `Generated.iteratorAbortedAsText`
+(the repaired bookkeeping) a byte that yields text and no element makes everything since `start`
+text, and trailing bytes are emitted as text even when none of them was counted. -/
 def assemble (tl start pos : Nat) : List Vte.Perf → List Element
-  | [] => if tl > 0 then [⟨.text, start, pos⟩] else []
+  | [] =>
+    if (if Generated.iteratorAbortedAsText then pos > start else tl > 0) then [⟨.text, start, pos⟩] else []
   | e :: es =>
     match e.elem with
-    | none => assemble (tl + e.text) start (pos + 1) es
+    | none =>
+      assemble (if Generated.iteratorAbortedAsText && decide (e.text > 0) then pos + 1 - start else tl + e.text)
+        start (pos + 1) es
     | some k =>
       (if tl + e.text > 0 then [⟨.text, start, start + (tl + e.text)⟩] else []) ++
         ⟨ofKind k, start + (tl + e.text), pos + 1⟩ :: assemble 0 (pos + 1) (pos + 1) es
